@@ -300,8 +300,12 @@ static void make_bfs_system(vr_system_t *s, int n, int hold)
     s->nontrivial = b_nontrivial; s->trname = b_trname; s->describe = b_describe;
 }
 
+/* a handler was aborted (assertion / crash): the module may still hold the delayed-list lock and list items */
+static void recover(void) { PARSEC_OBJ_CONSTRUCT(&parsec_termdet_user_trigger_delayed_messages, parsec_list_t); cur = -1; }
+
 int main(int argc, char **argv)
 {
+    vr_recover = recover;
     sx_init(argc, argv, "C12");
     vr_install_guard();
     PARSEC_OBJ_CONSTRUCT(&parsec_termdet_user_trigger_delayed_messages, parsec_list_t);
